@@ -37,7 +37,8 @@ def sh(cmd, timeout=600, cwd=None):
 
 def files():
     rc, out = sh("git -C /repo ls-files '*.go'")
-    return [f for f in out.split() if not f.endswith("_test.go") and not f.endswith("verif_hooks.go") and f != "doc.go"]
+    return [f for f in out.split() if not f.endswith("_test.go") and not f.endswith("verif_hooks.go") and f != "doc.go"
+            and "flowdot" not in f and "fsmtest" not in f and "matchertest" not in f]  # debugging / test-support packages
 
 def order_for(f):
     first = []
@@ -90,7 +91,7 @@ def main():
             if rc != 0:
                 r["status"] = "does-not-compile"
             else:
-                rc, out = sh("go test -vet=off -count=1 ./... 2>&1 | tail -5", cwd=wt, timeout=90)
+                rc, out = sh("go test -vet=off -count=1 ./... 2>&1 | tail -5", cwd=wt, timeout=240)
                 if rc == 124: r["status"] = "killed-by-suite (hang)"
                 elif "FAIL" in out or "panic:" in out or rc != 0: r["status"] = "killed-by-suite"
                 else: r["status"] = "survivor"
